@@ -662,7 +662,7 @@ pub fn run(out: &mut Out, tier: &str, seed: u64, prop: &str) {
         let targeted = ["a[b ;c]", "a[b] [c]", "a[[b]]", "a[b]c]", "a[b][c]", "x ; [", "p[a,b,]", "p[,a]", "p[a \u{e9}]", "p[]", "p[ ]", "p[a-]", "p[ a , b ]",
             "${VP_HOME_DIR}/x[dev]", "p[${VP_EMPTY}]", "${VP_EMPTY}", "file://localhost/p", "file://localhost", "file:p", "FILE:///p", "file:///a%20b#c%2541", "git+https://h/p[x]#egg", "h://x", "hg+static-http://h/p",
             "p;q", "p; q", "p ;q", "p #c", "p# c", "p\n; m", "p\r x", "p\r\n", "", " ", "[x]", "a]", "a[", "p ; os_name == 'a' x", "p;", "p; ", "p#", "p[x]; ", "p[x]# y", "./a b", "./a b ; os_name == 'a'",
-            "p [x]", "p\t[x] ; os_name=='a'", "/\u{65e5}[\u{672c}]", "p[x]\u{3000};os_name=='a'", "p;\u{3000}#x", "C:\\a\\b.whl[x]", "a:b", "1a:b", "../x[y] # c"];
+            "p [x]", "p\t[x] ; os_name=='a'", "/\u{65e5}[\u{672c}]", "p[x]\u{3000};os_name=='a'", "p;\u{3000}#x", "/a;[x]\u{3000}#c", "/a#[x]\u{2003}x", "/a;[x] #c", "C:\\a\\b.whl[x]", "a:b", "1a:b", "../x[y] # c"];
         for t in targeted { unnamed_case(out, &mut w, &mut rc, t, &vars); out.nontrivial(format!("unnamed {t}")); }
         let bases = ["https://x.org/a-1.0.whl[dev]", "../rel/p.tar.gz ; os_name == 'a'", "/abs/path[dev,test] ; python_version > '3'", "file:///tmp/x[a]", "git+https://github.com/a/b.git@main#egg=b", "${VP_HOME_DIR}/x [x]", "./p # c"];
         let n = if big { 6000 } else { 1200 };
